@@ -314,3 +314,64 @@ def _mut_serialize_all(fn):
             n.generators[0].ifs = []
             cnt += 1
     return cnt
+
+
+# ------------------------------------------------------------------------------------------------ start-up region of SyncObj.__init__ (O6.2)
+@unit(name='init.startup', relpath=MOD, qual=['SyncObj.__init__'], props=['C06', 'C04', 'C07'],
+      kind='region of SyncObj.__init__: from `self.__raftState = ...` to `self.__raftLastApplied = 1` (X7)',
+      doc='O6.2: after start-up the log is exactly what the journal holds (C08 reopen), or a single no-op (index 1, term 0) appended to an '
+          'empty journal; the commit index is the stored one; lastApplied restarts at 1; and either the journal still starts at index <= 2 '
+          'or a dump file is configured from which the first tick loads the state before anything is applied',
+      assumptions=['the journal object returned by createJournal is the decoded file (unit FileJournal.reopen)'],
+      canaries=[('commit-from-one', lambda mod: mutate_function(mod, 'SyncObj.__init__', _mut_commit_from_one), ['O6.2.commit-is-stored-commit'])])
+def init_startup(ctx):
+    so = SO(ctx, min(UNIVERSE(), 3))
+    mod = so.mod
+    fn, ci = mod.find('SyncObj.__init__')
+    idx0 = [i for i, s in enumerate(fn.body) if isinstance(s, ast.Assign) and isinstance(s.targets[0], ast.Attribute) and s.targets[0].attr == '__raftState']
+    idx1 = [i for i, s in enumerate(fn.body) if isinstance(s, ast.Assign) and isinstance(s.targets[0], ast.Attribute) and s.targets[0].attr == '__raftLastApplied']
+    if not idx0 or not idx1 or idx1[0] < idx0[0]:
+        raise Undecided('start-up region of SyncObj.__init__ not located')
+    stmts = fn.body[idx0[0]:idx1[0] + 1]
+    disk = fresh_log(ctx, 'journalOnDisk')       # what the journal file decodes to (any list; FileJournal.reopen)
+    stored_commit = disk.meta_commit
+    jref = ctx.alloc(disk)
+    c = ctx.cell(so.selfref)
+    blank = dict((k, v) for k, v in c.fields.items())
+    for k in ('raftLog', 'raftCommitIndex', 'raftLastApplied', 'raftCurrentTerm', 'votedForNodeId', 'raftState'):
+        blank.pop(F(k), None)
+    ctx.setcell(so.selfref, PObj('SyncObj', blank))
+    I = make_interp(ctx, so, externals={'createJournal': lambda I_, a, k: jref, 'journal.createJournal': lambda I_, a, k: jref})
+    kind, v, fr = run_region(I, so, 'SyncObj.__init__', stmts)
+    ctx.prove(kind == 'ok', 'C06:O6.2.no-exception', info=getattr(v, 'typ', None))
+    if kind != 'ok':
+        return
+    log = so.log()
+    ctx.prove(so.get('raftLog').addr == jref.addr, 'C06:O6.2.log-is-the-journal')
+    if ctx.decide(to_z3(disk.n) == 0, 'journal-empty'):
+        ctx.prove(And(Eq(log.n, 1), Eq(log.first, 1), log.termf(z3.IntVal(0)) == 0, _ctype(log.cmdf(z3.IntVal(0))) == 1), 'C06+C01:O6.2.empty-journal-gets-the-initial-noop')
+    else:
+        ctx.prove(log_same(disk, log), 'C06:O6.2.recovered-log-is-journal-content')
+    ctx.prove(Eq(so.get('raftCommitIndex'), stored_commit), 'C06+C04:O6.2.commit-is-stored-commit')
+    ctx.prove(Eq(so.get('raftLastApplied'), 1), 'C06:O6.2.applied-restarts-at-one')
+    # C07: what the previous incarnation acknowledged (ghost): the largest term it adopted or put on the wire, and its vote in it
+    ack_term, ack_vote = FreshInt('ackTerm'), FreshInt('ackVote')
+    ctx.track('ackTerm', ack_term)
+    ctx.assume(ack_term >= 0)
+    ctx.prove(so.get('raftCurrentTerm') >= ack_term, 'C07:O7.term-survives-restart',
+              info='term restarts at 0: the node can follow a leader or candidate of a term older than one it acknowledged')
+    vf = so.get('votedForNodeId')
+    ctx.prove(Implies(Eq(so.get('raftCurrentTerm'), ack_term), Eq(vf, NodeId(ack_vote))) if vf is not None else (ack_term < 0), 'C07:O7.vote-survives-restart',
+              info='the vote is not restored: a second candidate of the same term can be granted after a restart')
+    nodump = so.conf('fullDumpFile').isnone
+    ctx.prove(Implies(And(nodump, to_z3(disk.n) > 0), to_z3(log.first) <= 2), 'C06:O6.2.recoverable-without-dump',
+              info='a journal trimmed by a compaction starts after index 2; without a dump file nothing can ever be applied again')
+
+
+def _mut_commit_from_one(fn):
+    cnt = 0
+    for n in ast.walk(fn):
+        if isinstance(n, ast.Assign) and isinstance(n.targets[0], ast.Attribute) and n.targets[0].attr == '__raftCommitIndex':
+            n.value = ast.Constant(value=1)
+            cnt += 1
+    return cnt
